@@ -611,6 +611,89 @@ func saveSignedEvents(e *env) ([]string, error) {
 	return evs, nil
 }
 
+// writePathCalls: every call `x.M(...)` / `pkg.F(...)` in WriteFileAtomic (libs/common/os.go) in source order, tagged by what
+// happens to its error result:
+//
+//	checked:<callee>   assigned to a variable named err (if-init or plain assignment; the function tests it right after)
+//	returned:<callee>  returned to the caller
+//	unchecked:<callee> expression statement: the result is dropped
+//	dropped:<callee>   assigned, but the error position is `_`
+//	defer:<callee> / go:<callee>
+func writePathCalls(e *env) ([]string, error) {
+	fd, err := e.funcDecl("libs/common/os.go", "", "WriteFileAtomic")
+	if err != nil {
+		return nil, err
+	}
+	var txt func(x ast.Expr) string
+	txt = func(x ast.Expr) string {
+		switch v := x.(type) {
+		case *ast.Ident:
+			return v.Name
+		case *ast.SelectorExpr:
+			return txt(v.X) + "." + v.Sel.Name
+		case *ast.CallExpr:
+			return txt(v.Fun) + "()"
+		}
+		return "?"
+	}
+	isSelCall := func(x ast.Expr) (*ast.CallExpr, bool) {
+		c, ok := x.(*ast.CallExpr)
+		if !ok {
+			return nil, false
+		}
+		_, ok = c.Fun.(*ast.SelectorExpr)
+		return c, ok
+	}
+	var evs []string
+	seen := map[*ast.CallExpr]bool{}
+	ast.Inspect(fd.Body, func(n ast.Node) bool {
+		switch v := n.(type) {
+		case *ast.AssignStmt:
+			for _, r := range v.Rhs {
+				if c, ok := isSelCall(r); ok {
+					seen[c] = true
+					hasErr := false
+					for _, l := range v.Lhs {
+						if id, ok := l.(*ast.Ident); ok && id.Name == "err" {
+							hasErr = true
+						}
+					}
+					if hasErr {
+						evs = append(evs, "checked:"+txt(c.Fun))
+					} else {
+						evs = append(evs, "dropped:"+txt(c.Fun))
+					}
+				}
+			}
+		case *ast.ReturnStmt:
+			for _, r := range v.Results {
+				if c, ok := isSelCall(r); ok {
+					seen[c] = true
+					evs = append(evs, "returned:"+txt(c.Fun))
+				}
+			}
+		case *ast.ExprStmt:
+			if c, ok := isSelCall(v.X); ok {
+				seen[c] = true
+				evs = append(evs, "unchecked:"+txt(c.Fun))
+			}
+		case *ast.DeferStmt:
+			seen[v.Call] = true
+			evs = append(evs, "defer:"+txt(v.Call.Fun))
+		case *ast.GoStmt:
+			seen[v.Call] = true
+			evs = append(evs, "go:"+txt(v.Call.Fun))
+		case *ast.CallExpr:
+			if _, ok := v.Fun.(*ast.SelectorExpr); ok && !seen[v] {
+				seen[v] = true
+				evs = append(evs, "nested:"+txt(v.Fun))
+			}
+		}
+		return true
+	})
+	return evs, nil
+}
+
 func init() {
 	register("FilePVCheck", func(e *env) (string, error) {
 		var sb strings.Builder
@@ -639,6 +722,21 @@ func init() {
 		}
 		sb.WriteString("\n/-- `saveSigned`: assignments and calls in source order -/\ndef saveSignedEvents : List String := " + leanStrList(sevs) + "\n")
 		e.facts = append(e.facts, fact{Module: "FilePVCheck", Kind: "callorder", Name: "saveSigned", Value: sevs})
+		wevs, err := writePathCalls(e)
+		if err != nil {
+			return "", err
+		}
+		var triples []string
+		for _, w := range wevs {
+			tag, callee := w[:strings.Index(w, ":")], w[strings.Index(w, ":")+1:]
+			recv, meth := "", callee
+			if i := strings.LastIndex(callee, "."); i >= 0 {
+				recv, meth = callee[:i], callee[i+1:]
+			}
+			triples = append(triples, "("+leanStr(tag)+", "+leanStr(recv)+", "+leanStr(meth)+")")
+		}
+		sb.WriteString("\n/-- `cmn.WriteFileAtomic`: every selector call in source order as (what happens to its error, receiver, function): checked = assigned to `err`, returned, unchecked = result dropped, dropped = error position `_`, defer, go, nested -/\ndef writeFileAtomicCalls : List (String × String × String) := [" + strings.Join(triples, ", ") + "]\n")
+		e.facts = append(e.facts, fact{Module: "FilePVCheck", Kind: "callorder", Name: "WriteFileAtomic", Value: wevs})
 		callers, err := nonTestCallers(e, "SignVoteWithoutSave")
 		if err != nil {
 			return "", err
